@@ -1218,6 +1218,7 @@ def apply(tree, rel):
   for _round in range(2):
     _Idioms().visit(tree)
     fold_lock_blocks(tree)
+    unfold_starmaps(tree)
     done = 0
     if os.environ.get('VERIF_NO_ALIAS_PROP') != '1':
       for f in ast.walk(tree):
@@ -1485,6 +1486,85 @@ class _Idioms(ast.NodeTransformer):
         n.args[0].elts and not any(isinstance(e, ast.Starred) for e in n.args[0].elts):
       return ast.copy_location(ast.Set(elts=n.args[0].elts), n)
     return n
+
+
+def unfold_starmaps(tree):
+  """X = itertools.chain.from_iterable(itertools.starmap(self.m, S)), X read only
+  by the next statement  ==  X = []; for (a, b) in S: X.extend(self.m(a, b))
+  (k = number of parameters of m; also plain starmap -> append).  The lazy
+  iterator is consumed by the very next statement, so building the list first
+  runs the same calls in the same order (relative to each other; relative to
+  pure statements in between the order is immaterial for what the rules read:
+  the call sites of m and their arguments)."""
+  n_done = [0]
+
+  def arities(cls):
+    out = {}
+    for m in cls.body:
+      if isinstance(m, ast.FunctionDef) and not m.args.vararg and not m.args.kwarg and \
+          not m.args.defaults and not m.args.kwonlyargs and m.args.args and \
+          m.args.args[0].arg == 'self':
+        out[m.name] = len(m.args.args) - 1
+    return out
+
+  def rec(stmts, ar):
+    out = []
+    i = 0
+    while i < len(stmts):
+      st = stmts[i]
+      nxt = stmts[i + 1] if i + 1 < len(stmts) else None
+      done = False
+      if isinstance(st, ast.Assign) and len(st.targets) == 1 and isinstance(
+          st.targets[0], ast.Name) and isinstance(st.value, ast.Call) and nxt is not None:
+        v = st.value
+        flat = False
+        if ast.unparse(v.func) in ('itertools.chain.from_iterable', 'chain.from_iterable') \
+            and len(v.args) == 1 and isinstance(v.args[0], ast.Call):
+          v, flat = v.args[0], True
+        if ast.unparse(v.func) in ('itertools.starmap', 'starmap') and len(v.args) == 2 and \
+            isinstance(v.args[0], ast.Attribute) and isinstance(
+                v.args[0].value, ast.Name) and v.args[0].value.id == 'self' and \
+            ar.get(v.args[0].attr, 0) >= 1:
+          x = st.targets[0].id
+          k = ar[v.args[0].attr]
+          # consumed once, further down the same block (the statements in
+          # between do not mention it: the calls are merely made a little earlier)
+          uses = [later for later in stmts[i + 1:] if any(
+              isinstance(y, ast.Name) and y.id == x for y in ast.walk(later))]
+          if len(uses) == 1 and sum(1 for y in ast.walk(uses[0]) if isinstance(
+              y, ast.Name) and y.id == x) == 1:
+            names = ['_%s_%d' % (x, j) for j in range(k)]
+            call = ast.Call(func=v.args[0], args=[ast.Name(id=nm, ctx=ast.Load())
+                                                  for nm in names], keywords=[])
+            body = ast.Expr(value=ast.Call(
+                func=ast.Attribute(value=ast.Name(id=x, ctx=ast.Load()),
+                                   attr='extend' if flat else 'append', ctx=ast.Load()),
+                args=[call], keywords=[]))
+            tgt = ast.Tuple(elts=[ast.Name(id=nm, ctx=ast.Store()) for nm in names],
+                            ctx=ast.Store()) if k > 1 else ast.Name(id=names[0],
+                                                                    ctx=ast.Store())
+            if k == 1:
+              # starmap unpacks 1-tuples too
+              tgt = ast.Tuple(elts=[tgt], ctx=ast.Store())
+            init = ast.Assign(targets=[ast.Name(id=x, ctx=ast.Store())],
+                              value=ast.List(elts=[], ctx=ast.Load()))
+            loop = ast.For(target=tgt, iter=v.args[1], body=[body], orelse=[])
+            for new in (init, loop):
+              out.append(ast.fix_missing_locations(ast.copy_location(new, st)))
+            n_done[0] += 1
+            done = True
+      if not done:
+        for f in ('body', 'orelse', 'finalbody'):
+          b = getattr(st, f, None)
+          if isinstance(b, list) and b and isinstance(b[0], ast.stmt):
+            setattr(st, f, rec(b, arities(st) if isinstance(st, ast.ClassDef) else ar))
+        for h in getattr(st, 'handlers', []) or []:
+          h.body = rec(h.body, ar)
+        out.append(st)
+      i += 1
+    return out
+  tree.body = rec(tree.body, {})
+  return n_done[0]
 
 
 def fold_lock_blocks(tree):
